@@ -31,13 +31,15 @@ TRUSTED = [
     "harness/ref/pairverify_client.py (independent controller, frame codec, HTTP reader), harness/ref/tlv8.py, generators",
     "removal through AccessoryDriver.unpair()/State.remove_paired_client() called by the application is outside the "
     "property (no acknowledgement exists) and not modelled",
-    "a restart is seen by the Sessions model as every connection going away with the pairing map kept (that the state file "
-    "carries the pairing map faithfully is C14/C15's subject); the harness performs it for real: real persist()/load() on a "
+    "a restart is the Sessions model's `restart` step: every connection and handler gone, pairing map kept (that the state "
+    "file carries the pairing map faithfully is C14/C15's subject); the harness performs it for real: real persist()/load() on a "
     "state file, saves handed to the executor are carried out at once, AccessoryDriver.async_stop() runs for real with a stub "
-    "advertiser whose goodbye the harness holds open (shutdown window)",
-    "sessions that are in the middle of a request at the moment of the removal (headers only / half a body / a pending delayed "
-    "snapshot response) are produced by the generator and judged by the oracle only: the Sessions model has no per-connection "
-    "request state (its teardown closes a connection whatever it is doing; a completed partial request is compared as one request)",
+    "advertiser whose goodbye the harness holds open (shutdown window; the connections async_stop closes are peer-closes to the model)",
+    "delayed responses (POST /resource whose snapshot is still being taken) are in the model (`resource` request, `ready` step) and "
+    "compared; the accessory's camera is a harness stub whose snapshot completes or fails when the harness says so. A request cut "
+    "in the middle (headers only / half a body) is produced by the generator and judged by the oracle only until it completes: the "
+    "Sessions model has no partial-request state (a completed partial request is compared as one request); a further request on a "
+    "connection whose delayed response is outstanding is not generated (h11 refuses it; C19's subject)",
 ]
 
 CT = c02.CT
@@ -234,6 +236,8 @@ def classify(req: Dict[str, Any], m: Optional[Dict[str, Any]]):
         return "401"
     if kind == "prot":
         return {"served": req["kind"]} if 200 <= st < 300 else f"status{st}"
+    if kind == "resource":
+        return {"served": 5} if 200 <= st < 300 else f"status{st}"
     # /pairings
     if st == 200 and m["headers"].get("content-type") == CT:
         recs = tlv8.records(m["body"])
@@ -461,11 +465,13 @@ class Runner16(c02.Runner):
         old = self.w
         if old.stop_task is not None and not old.stop_task.done():
             old.stop_task.cancel()
-        open_before = old.live()
         old.close()
         self.busy.clear()
         self.w = World16(self.krng, self.persist_file)
-        self._model_closes(open_before, "restarted")
+        # the model's own `restart` step: no connection, no handler, the pairing map is what the new process loaded
+        self.clock += 1
+        self.record({"op": "restart"}, len(self.w.log), {}, compare_events=False)
+        self.outcomes.append("restarted")
 
     # ---- sessions that are in the middle of a request
     def op_partial(self, n, op):
@@ -493,9 +499,15 @@ class Runner16(c02.Runner):
         body = json.dumps({"image-width": 320, "image-height": 240, "resource-type": "image"}).encode()
         before = len(w.snap_futs)
         w.transports[c].out.clear()
+        start = len(w.log)
         w.send_raw(c, rc.http_request("POST", "/resource", body, JS))
         w.tick()
-        if len(w.snap_futs) == before + 1 and not w.read_written(c):
+        msgs = w.read_written(c)
+        # model: one segment with one `resource` request; whatever was written now is compared (nothing, if the snapshot started)
+        self.clock += 1
+        self.record({"op": "chunk", "conn": c, "reqs": [{"r": "resource"}]}, start,
+                    {c: [classify({"r": "resource"}, m) for m, _ in msgs]})
+        if len(w.snap_futs) == before + 1 and not msgs:
             self.busy[c] = {"what": "snapshot", "fut": w.snap_futs[-1]}
             self.outcomes.append("snapshot-pending")
         else:
@@ -515,19 +527,25 @@ class Runner16(c02.Runner):
             # exactly like a normal chunk carrying this one request (model: one guarded request, if deliverable)
             self.deliver(c, [{"r": "prot", "kind": 2}], [b["rest"]], [{"r": "prot", "kind": 2}])
             return
+        ok = not op.get("fail")
         if not b["fut"].done():
-            b["fut"].set_result(b"\xff\xd8JPEG")
+            if ok:
+                b["fut"].set_result(b"\xff\xd8JPEG")
+            else:
+                b["fut"].set_exception(RuntimeError("camera failed"))
         w.tick()
         wrote = [(kind, cc) for kind, cc in w.log[start:] if cc == c and kind in ("w", "d")]
         msgs = w.read_written(c)
-        served = any(m is not None and 200 <= m["status"] < 300 for m, _ in msgs) or (wrote and not msgs)
+        # model: the `ready` step (the response is written unless the transport is closing)
+        self.clock += 1
+        self.record({"op": "ready", "conn": c, "ok": ok}, start, {c: [classify({"r": "resource"}, m) for m, _ in msgs]})
         if owner is not None and not self.currently_paired(owner) and wrote:
             self.fail(
                 "C16:delayed-response-written-after-removal",
                 f"the delayed snapshot response on connection {c} of controller {_ix(owner)} was written after the removal of its "
                 f"pairing had been acknowledged",
             )
-        self.outcomes.append("snapshot-" + ("delivered" if served and not t.closed else ("written-after-close" if wrote else "suppressed")))
+        self.outcomes.append("snapshot-" + (("delivered" if ok else "failed-500") if wrote and not t.closed else ("written-after-close" if wrote else "suppressed")))
 
     def op_req(self, n, op):
         c = op["conn"]
@@ -697,8 +715,8 @@ def SNAP(c):
     return {"op": "snapshot", "conn": c}
 
 
-def FIN(c):
-    return {"op": "finish", "conn": c}
+def FIN(c, fail=False):
+    return {"op": "finish", "conn": c, "fail": fail}
 
 
 STOP_BEGIN = {"op": "stop_begin"}
@@ -802,6 +820,20 @@ def boundary_scripts():
         s.append([P(0), P(1, admin=False), CN(0), CN(1), CN(2), S(0, 0), S(1, 1), S(2, 1, "force"), RQ(0, rem(1), shaped(add(1, key=2), shape)),
                   *probes(1), *probes(2), CN(3), S(3, 1), CN(4), S(4, 1, key=2), RQ(4, prot(0))])
     s.append([P(0), P(1), CN(0), CN(1), S(0, 0), S(1, 1), RQ(0, rem(1), add(1, admin=True)), *probes(1), CN(2), S(2, 1), RQ(2, LIST)])
+    # ---- the snapshot FAILS (camera error -> 500): delivered to a controller that stays, suppressed for a removed one
+    s.append([P(0), P(1, admin=False), P(2, admin=False), CN(0), CN(1), CN(2), S(0, 0), S(1, 1), S(2, 2, "force"),
+              SNAP(1), SNAP(2), RQ(0, rem(1)), FIN(1, fail=True), FIN(2, fail=True), RQ(2, prot(0)), *probes(1)])
+    s.append([P(0), CN(0), S(0, 0), SNAP(0), FIN(0), RQ(0, prot(0)), SNAP(0), FIN(0, fail=True), RQ(0, prot(1)), RQ(0, LIST)])
+    # the peer goes away while its snapshot is being taken; an unverified connection asks for a snapshot
+    s.append([P(0), P(1, admin=False), CN(0), CN(1), CN(2), S(0, 0), S(1, 1), SNAP(1), {"op": "peerclose", "conn": 1}, FIN(1),
+              RQ(0, rem(1)), RQ(0, prot(0))])
+    # ---- restarts in the MIDDLE of a history: sessions of before are gone, removed controllers stay out, re-added ones
+    # come back, a removal after the restart cuts the sessions made after it
+    s.append([P(0), P(1, admin=False), P(2, admin=False), CN(0), CN(1), S(0, 0), S(1, 1), RQ(0, rem(1)), RESTART,
+              CN(2), S(2, 0), CN(3), S(3, 1), CN(4), S(4, 2), RQ(2, add(1, key=3)), CN(5), S(5, 1), CN(6), S(6, 1, key=3), RQ(6, prot(0)),
+              RQ(2, rem(2)), *probes(4), RESTART, CN(7), S(7, 2), CN(8), S(8, 1, key=3), RQ(8, prot(1)), CN(9), S(9, 0), RQ(9, LIST)])
+    s.append([P(0), P(1), CN(0), CN(1), S(0, 0), S(1, 1), SNAP(1), RESTART, CN(2), S(2, 1), RQ(2, rem(0)), CN(3), S(3, 0), RESTART,
+              CN(4), S(4, 0), CN(5), S(5, 1), RQ(5, rem(1)), *probes(5), RESTART, CN(6), S(6, 1), CN(7), S(7, 0)])
     # removal of one of three, twice in a row (second is a no-op)
     s.append([P(0), P(1, admin=False), P(2, admin=False), CN(0), CN(1), CN(2), S(0, 0), S(1, 1), S(2, 2),
               RQ(0, rem(1), rem(1)), *probes(1), RQ(2, prot(0)), RQ(0, rem(2)), *probes(2), RQ(0, prot(0))])
@@ -917,10 +949,74 @@ def random_script(rng):
     return ops
 
 
+def soup_script(rng):
+    """Arbitrary interleaving: several controllers open sessions, use them, remove each other (and themselves), are added
+    again (same or new key), snapshots start and complete or fail, peers go away, the accessory restarts -- in any order."""
+    n_ctl = rng.choice([2, 3, 3, 4])
+    ops = [P(0)] + [P(i, admin=rng.random() < 0.35) for i in range(1, n_ctl)]
+    conns = {}  # conn -> controller the generator believes holds it
+    keys = {i: i for i in range(n_ctl)}  # controller -> index of the key the generator believes is registered
+    nextc = 0
+    for _ in range(rng.randrange(8, 24)):
+        x = rng.random()
+        if x < 0.24 or not conns:
+            i = rng.randrange(n_ctl)
+            how = "verify" if rng.random() < 0.65 else "force"
+            kw = {} if rng.random() < 0.85 else {"key": rng.choice([9, (i + 1) % 4])}
+            ops += [CN(nextc), S(nextc, i, how, **({"key": keys[i]} if not kw and keys[i] != i else kw))]
+            if not kw:
+                conns[nextc] = i
+            else:
+                conns[nextc] = n_ctl  # nobody
+            nextc += 1
+        elif x < 0.46:
+            k = rng.choice(list(conns))
+            ops.append(RQ(k, *[rng.choice([prot(0), prot(1), prot(2), prot(3), prot(4), LIST]) for _ in range(rng.choice([1, 1, 2]))]))
+        elif x < 0.64:
+            k = rng.choice(list(conns))
+            target = rng.randrange(n_ctl + 1)
+            reqs = [rem(target, sp=rng.choice(["upper", "lower"]))]
+            y = rng.random()
+            if y < 0.3:
+                reqs.append(rng.choice([prot(rng.randrange(5)), LIST]))
+            elif y < 0.5 and target < n_ctl:
+                nk = rng.choice([target, (target + 1) % 4])
+                reqs.append(add(target, admin=rng.random() < 0.3, key=nk))
+                keys[target] = nk
+            ops.append(RQ(k, *reqs))
+        elif x < 0.72:
+            k = rng.choice(list(conns))
+            target = rng.randrange(n_ctl)
+            nk = rng.choice([target, target, (target + 2) % 4])
+            ops.append(RQ(k, add(target, admin=rng.random() < 0.3, key=nk)))
+            keys[target] = nk
+        elif x < 0.80:
+            ops.append(midreq(rng.choice(list(conns)), rng.choice(["snapshot", "snapshot", "headers", "halfbody"])))
+        elif x < 0.89:
+            ops.append(FIN(rng.choice(list(conns)), fail=rng.random() < 0.3))
+        elif x < 0.93:
+            k = rng.choice(list(conns))
+            ops.append({"op": "peerclose", "conn": k})
+            del conns[k]
+        elif x < 0.97:
+            ops.append(RESTART)
+            conns.clear()
+        else:
+            i = rng.randrange(n_ctl)
+            ops.append(P(i, admin=rng.random() < 0.5, key=keys[i]))  # pair-setup after a sweep / the application
+    # at the end everybody tries again on a fresh connection
+    for i in range(n_ctl):
+        ops += [CN(nextc), S(nextc, i, **({"key": keys[i]} if keys[i] != i else {})), RQ(nextc, rng.choice([prot(0), prot(2), LIST]))]
+        nextc += 1
+    return ops
+
+
 def gen_scripts(ctx: Ctx):
     scripts = boundary_scripts()
     for _ in range(ctx.n(250, 6000)):
         scripts.append(random_script(ctx.rng))
+    for _ in range(ctx.n(90, 1500)):
+        scripts.append(soup_script(ctx.rng))
     return scripts
 
 
@@ -953,7 +1049,8 @@ def run(ctx: Ctx):
         "histories: 2-4 controllers with 0-2 open sessions each (real pair-verify with the reference controller or planted), "
         "removal by self / another admin / last-admin rule / unknown id / non-admin through real POST /pairings (optionally with "
         "pipelined requests in the same segment), then GET/PUT/subscribe/prepare/list from old connections, fresh verify attempts, "
-        "re-adding. Non-trivial: the history contains an acknowledged removal or a denied one; distinct by the outcome sequence."
+        "re-adding; plus 'soup' histories: arbitrary interleavings of sessions, requests, removals, re-additions (same or new key), "
+        "snapshots that start / complete / fail, peers going away and restarts. Non-trivial: the history contains an acknowledged removal or a denied one; distinct by the outcome sequence."
     )
     logging.disable(logging.CRITICAL)
     try:
